@@ -564,6 +564,17 @@ pub fn run(ctx: &Ctx, replay: Option<&Value>) -> i32 {
     }
     let _ = crate::lspdrv::root();
     TYPING_LADDER.store(thorough, std::sync::atomic::Ordering::SeqCst);
+    if std::env::var("C14_ONE").is_ok() {
+        // debugging aid: one history, one probe
+        let t = MAIN_TEXTS.len() - 2;
+        for hist in [vec![Event::Open(0, t)], vec![Event::Open(0, t), Event::DocSymbol(0)]] {
+            let b = buffers_after(&hist);
+            let p = Probe { method: "textDocument/references", file: 0, line: 4, character: 7, class: "token-start" };
+            let o = observe(&hist, &[p], &b);
+            println!("{:?} -> {:?} diags {:?}", hist, o.answers, o.diags);
+        }
+        return 0;
+    }
     ctx.set("main_texts", json!(texts_of(0).len()));
     let max_depth = if thorough { 64 } else { 3 };
     let full = thorough;
